@@ -97,25 +97,37 @@ Check c14_graph_partition_refuted :
   exists es, ~ Covers es (flat (chunk_graph count_words true (wit_cfg 512) es)).
 Print Assumptions c14_graph_partition_refuted.
 
-(** section-graph chunker, budget: holds for counters that are additive (guarded positive
-    theorem of known finding C14-graph-budget-sum) ... *)
-Theorem c14_graph_budget_additive : forall count additive, AdditiveContract count additive ->
-  forall c es, additive = true ->
+(** section-graph chunker, budget (after fix_graph_budget_joined, which repaired known finding
+    C14-graph-budget-sum): a whole-section chunk is approved by the count of the text it emits
+    unless the counter declares itself additive, so the budget clause holds for every counter
+    honouring its own declaration — the same hypothesis as c14_chunk_budget, and no
+    [additive = true] guard any more *)
+Theorem c14_graph_budget : forall count additive, AdditiveContract count additive ->
+  forall c es,
   Forall (budget_ok count (max_tokens c)) (chunk_graph count additive c es).
-Proof. exact graph_budget_additive. Qed.
-Check c14_graph_budget_additive : forall count additive, AdditiveContract count additive ->
-  forall c es, additive = true ->
+Proof. exact graph_budget. Qed.
+Check c14_graph_budget : forall count additive, AdditiveContract count additive ->
+  forall c es,
   Forall (budget_ok count (max_tokens c)) (chunk_graph count additive c es).
-Print Assumptions c14_graph_budget_additive.
+Print Assumptions c14_graph_budget.
 
-(** ... and fails for a non-additive one: the per-element sum approves a section whose
-    joined text exceeds the budget *)
-Theorem c14_graph_budget_refuted :
-  exists es, ~ Forall (budget_ok count_chars4 2) (chunk_graph count_chars4 false (wit_cfg 2) es).
-Proof. exact graph_budget_refuted. Qed.
-Check c14_graph_budget_refuted :
-  exists es, ~ Forall (budget_ok count_chars4 2) (chunk_graph count_chars4 false (wit_cfg 2) es).
-Print Assumptions c14_graph_budget_refuted.
+(** record of the PINNED (pre-fix) behaviour, stated about the pre-fix definition
+    [chunk_graph_pinned]: the per-element sum approves a section whose joined text exceeds the
+    budget under a non-additive counter ... *)
+Theorem c14_graph_budget_pinned_refuted :
+  exists es, ~ Forall (budget_ok count_chars4 2) (chunk_graph_pinned count_chars4 false (wit_cfg 2) es).
+Proof. exact graph_budget_pinned_refuted. Qed.
+Check c14_graph_budget_pinned_refuted :
+  exists es, ~ Forall (budget_ok count_chars4 2) (chunk_graph_pinned count_chars4 false (wit_cfg 2) es).
+Print Assumptions c14_graph_budget_pinned_refuted.
+
+(** ... while for a counter that declares itself additive the repair changes no output *)
+Theorem c14_graph_fix_conservative : forall count c es,
+  chunk_graph_pinned count true c es = chunk_graph count true c es.
+Proof. intros. apply chunk_graph_pinned_additive. reflexivity. Qed.
+Check c14_graph_fix_conservative : forall count c es,
+  chunk_graph_pinned count true c es = chunk_graph count true c es.
+Print Assumptions c14_graph_fix_conservative.
 
 (** UNCONDITIONAL (no contract on the counter, not even purity beyond being a Gallina function): the
     partition and heading clauses of the sequential chunker hold for every counter, every declared
